@@ -3,6 +3,7 @@ import glob
 import marshal
 import os
 import random
+import struct
 
 from framework import Case, coq_property, REPO
 import handler_diff as hd
@@ -56,10 +57,101 @@ def gen_cases(rng, tier):
         for ln in (255, 256, 65535, 65536):
             v = ("seq", b"(", (("str", b"a", b"x" * ln), ("str", b"s", b"y" * ln)))
             add(pm.header(ver) + pm.dumps(v, ver, rng, 0.3), ["strlen%d" % ln, "%d.%d" % ver], ver, v)
-    # versions the tool leaves alone
-    for magic in (62211, 3000, 3180, 3230):
-        add(bytes([magic & 255, magic >> 8]) + b"\r\n" + b"\0" * 8 + b"N", ["too-old"])
+    # near-duplicates: objects that differ in exactly one place must not be merged by the writer's de-duplication
+    for i in range(150 if tier == "quick" else 2500):
+        ver = VERS[::-1][i % len(VERS)]
+        for _attempt in range(20):
+            kind = i % 7
+            if kind == 0 and ver >= (3, 14):
+                v = ("slice", pm.gen_value(rng, ver, 4), pm.gen_value(rng, ver, 4), pm.gen_value(rng, ver, 4))
+            elif kind == 1:
+                v = ("complex", struct.pack("<dd", rng.choice([0.0, 1.5, -2.0]), rng.choice([0.0, -0.0, 3.25])))
+            elif kind == 2:
+                v = ("float", struct.pack("<d", rng.choice([0.0, -0.0, 1.0, 1e100])))
+            else:
+                v = pm.gen_value(rng, ver, rng.choice([0, 2, 3]))
+            if v[0] != "single":
+                break
+        w = mutate_one(rng, v)
+        both = ("seq", b"(", (v, w, v, w, ("seq", b"(", (w, v))))
+        payload = pm.dumps(both, ver, rng, rng.choice([0.0, 0.5, 1.0]))
+        if len(payload) <= 30000:
+            add(pm.header(ver) + payload, ["near-dup", "%d.%d" % ver, v[0]], ver, both)
+    # versions the tool leaves alone: every release magic before 3.4, with a payload that 3.4+ rules would rewrite
+    for magic in (62211, 3000, 3131, 3141, 3151, 3160, 3180, 3190, 3210, 3220, 3230):
+        hdr = bytes([magic & 255, magic >> 8]) + b"\r\n" + b"\0" * (8 if magic >= 3190 else 4)
+        add(hdr + b"N", ["too-old"])
+        add(hdr + b"(\x02\x00\x00\x00(\x01\x00\x00\x00Nu\x02\x00\x00\x00ab", ["too-old", "rewritable-under-3.4-rules", "magic%d" % magic])
     return cases, meta
+
+
+# magic numbers of the releases before 3.4 (CPython's importlib/_bootstrap_external.py history): 3.0, 3.1, 3.2, 3.3
+OLD_MAGICS = [(3000, 3131), (3141, 3151), (3160, 3180), (3190, 3230)]
+
+
+def mutate_one(rng, v):
+    """A value that differs from v in exactly one place (for the writer's de-duplication: equal-looking objects must not be merged)."""
+    k = v[0]
+    if k == "single":
+        return ("single", rng.choice([b for b in (b"N", b"F", b"T", b".") if b != v[1]]))
+    if k == "int":
+        b = bytearray(v[1])
+        b[rng.randrange(4)] ^= 1 << rng.randrange(8)
+        return ("int", bytes(b))
+    if k == "long":
+        return ("long", rng.choice([-v[1], v[1] + 1, v[1] ^ (1 << 15)]) or 2 ** 40)
+    if k == "float":
+        b = bytearray(v[1])
+        b[rng.choice([0, 7])] ^= rng.choice([1, 128])
+        return ("float", bytes(b))
+    if k == "complex":
+        b = bytearray(v[1])
+        b[rng.choice([0, 7, 8, 15])] ^= rng.choice([1, 128])
+        return ("complex", bytes(b))
+    if k == "str":
+        c, body = v[1], v[2]
+        r = rng.random()
+        if r < 0.4:
+            groups = [b"zZ", b"aAut", b"s"]
+            alt = [bytes([x]) for g in groups if c in g for x in g if bytes([x]) != c]
+            if alt:
+                return ("str", rng.choice(alt), body)
+        if body and r < 0.7:
+            b = bytearray(body)
+            i = rng.randrange(len(b))
+            b[i] = (b[i] ^ 1) if 32 <= (b[i] ^ 1) < 127 or c == b"s" else (b[i] - 1 if b[i] > 33 else b[i] + 1)
+            return ("str", c, bytes(b))
+        if len(body) < 255:
+            return ("str", c, body + b"x")
+        return ("str", c, body[:-1])
+    if k == "seq":
+        c, items = v[1], v[2]
+        r = rng.random()
+        if items and r < 0.6:
+            i = rng.randrange(len(items))
+            return ("seq", c, items[:i] + (mutate_one(rng, items[i]),) + items[i + 1:])
+        if r < 0.8:
+            return ("seq", b">" if c == b"(" else b"(", items)
+        return ("seq", c, items + (("single", b"N"),))
+    if k == "dict":
+        items = v[1]
+        if items:
+            i = rng.randrange(len(items))
+            return ("dict", items[:i] + (mutate_one(rng, items[i]),) + items[i + 1:])
+        return ("dict", (("single", b"N"), ("single", b"T")))
+    if k == "slice":
+        i = rng.randrange(1, 4)
+        return v[:i] + (mutate_one(rng, v[i]),) + v[i + 1:]
+    if k == "code":
+        ints, objs = v[1], v[2]
+        if rng.random() < 0.4:
+            i = rng.randrange(len(ints))
+            b = bytearray(ints[i])
+            b[0] ^= 1
+            return ("code", ints[:i] + (bytes(b),) + ints[i + 1:], objs)
+        i = rng.randrange(len(objs))
+        return ("code", ints, objs[:i] + (mutate_one(rng, objs[i]),) + objs[i + 1:])
+    raise ValueError(k)
 
 
 def decode_file(data):
@@ -94,6 +186,8 @@ def oracle(c, cls, after):
         return [("panic", "handler panicked on a stream CPython could emit")] if "gen" in c.tags or "corpus" in c.tags else [("panic", "handler panicked")]
     if (c.check or cls in ("Noop", "BadFormat", "Error")) and after != x:
         fails.append(("untouched-violated", "class %s but bytes changed" % cls))
+    if len(x) >= 4 and x[2:4] == b"\r\n" and any(lo <= (x[0] | x[1] << 8) <= hi for lo, hi in OLD_MAGICS) and after != x:
+        fails.append(("old-version-rewritten", "magic %d belongs to a Python release before 3.4 (no reference flags in its marshal format), yet the file was rewritten" % (x[0] | x[1] << 8)))
     d = decode_file(x)
     if d is None:
         return fails
